@@ -61,6 +61,15 @@ def gen_circuit(rnd, style=None, max_gates=8, max_in=4, max_ff=2, open_pins=True
             Line(c, (ff, 1), fq)
             sig.append(fq)
 
+    # constant (tie) cells as further signal sources: a buffer / inverter without any input
+    if kinds is None and rnd.random() < 0.3:
+        for i in range(rnd.randint(1, 2)):
+            k = rnd.choice(['__const0__', '__const1__', 'TIEL', 'tieh'])
+            n = Node(c, f'k{i}', k)
+            f = Node(c, f'k{i}')
+            Line(c, n, f)
+            sig.append(f)
+
     def rd(f, node, pin=None):
         if bf:
             b = Node(c, f'{f.name}~{node.name}/{len(node.ins) if pin is None else pin}')
